@@ -255,6 +255,151 @@ class KernelRun:
                 f"{hexlist(vol)} {need.name} {int(shell)} {int(safe)} {units_tok(res)} {pairs_tok(ovr)}")
         await self.tx(line, fn, lambda v: hexlist(sorted(v)))
 
+    async def define_explicit(self, creator, cmd, inp=(), out=(), need=Need.DEFAULT):
+        """`define_step` with chosen arguments (creator: label of a step)."""
+        wf = self.wf
+        inp, out = list(inp), list(out)
+        self.decls[cmd] = (cmd, ".", tuple(inp), (), tuple(out), (), need, False, {}, {})
+
+        def fn():
+            return wf.define_step(wf.find(Step, creator), cmd, inp_paths=inp, env_deps=[], out_paths=out,
+                                  vol_paths=[], workdir=".", need=need, resources=None, shell=False,
+                                  env_overrides=None, _safe=False)
+
+        line = (f"k define {kkey('step', creator)} {hexs(cmd)} {hexs('.')} {hexlist(inp)} . {hexlist(out)} . "
+                f"{need.name} 0 0 . .")
+        return await self.tx(line, fn, lambda v: hexlist(sorted(v)))
+
+    async def check_failed(self, label):
+        """The hash check of a CHECKING step found a change: it runs (executor: reset, RUNNING)."""
+        await self.step_op("reset_rerun", label, fn=lambda: self.wf.find(Step, label).reset_for_rerun())
+        await self.step_op("delete_hash", label, fn=lambda: self.wf.find(Step, label).delete_hash())
+        await self.step_op("set_state", label, "RUNNING",
+                           fn=lambda: self.wf.find(Step, label).set_state(StepState.RUNNING))
+
+    async def pop_until(self, label, limit=6):
+        """Dispatch until `label` is RUNNING (other dispatched steps stay RUNNING/CHECKING)."""
+        wf = self.wf
+        for _ in range(limit):
+            state = await self.q(lambda: wf.find(Step, label).get_state() if wf.find(Step, label) else None)
+            if state == StepState.RUNNING:
+                return True
+            if state == StepState.CHECKING:
+                await self.check_failed(label)
+                return True
+            ans = await self.pop()
+            if ans.startswith("ok none") or not ans.startswith("ok"):
+                return False
+        return False
+
+    async def complete_ok(self, step):
+        wf = self.wf
+        state = await self.q(lambda: wf.find(Step, step).get_state() if wf.find(Step, step) else None)
+        if state != StepState.RUNNING:
+            return
+        outs = await self.q(lambda: [str(rec.path) for rec in wf.find(Step, step).out_paths()])
+        todo = await self.q(lambda: [p for p in outs if wf.find(File, p).get_state()
+                                     in (FileState.PLANNED, FileState.OUTDATED)])
+        await self.hashes(HashUpdateCause.SUCCEEDED, todo, 1.0)
+        tok = self.newtok()
+        await self.step_op("completed", step, tok, 0,
+                           fn=lambda: wf.find(Step, step).mark_completed(kdump.step_token(tok), False),
+                           result=lambda v: kdump.b01(v))
+
+    async def nested_chain(self):
+        """A creator chain plan -> S -> M -> U whose leaf consumes the output of a step G declared
+        by the plan (often OPTIONAL), everything built; then S has to run again and is reset, which
+        detaches M and, through the recursion, U, while G stays attached."""
+        r, wf = self.r, self.wf
+        running = await self.q(lambda: self.steps(StepState.RUNNING))
+        if "./plan.py" not in running:
+            return
+        src, mid, res = r.sample(PATHS, 3)
+        gneed = Need.OPTIONAL if r.random() < 0.75 else Need.DEFAULT
+        await self.tx(f"k static {kkey('step', './plan.py')} {hexlist([src])}",
+                      lambda: wf.declare_static_files(wf.find(Step, "./plan.py"), [src]),
+                      lambda v: hexlist(sorted(v)))
+        await self.hashes(HashUpdateCause.CONFIRMED, [src], 1.0)
+        await self.define_explicit("./plan.py", "gen", [src], [mid], gneed)
+        await self.define_explicit("./plan.py", "./sub.py", [], [], Need.PLAN)
+        chain = ["./sub.py"]
+        if not await self.pop_until("./sub.py"):
+            return
+        depth = r.choice([1, 2, 2, 3])
+        for i in range(depth - 1):
+            nxt = f"./mid{i}.py"
+            await self.define_explicit(chain[-1], nxt, [], [], r.choice([Need.PLAN, Need.DEFAULT]))
+            if not await self.pop_until(nxt):
+                return
+            chain.append(nxt)
+        await self.define_explicit(chain[-1], "use", [mid], [res], Need.DEFAULT)
+        for step in ["./plan.py"] + chain:
+            await self.complete_ok(step)
+        if await self.pop_until("gen"):
+            await self.complete_ok("gen")
+        if await self.pop_until("use"):
+            await self.complete_ok("use")
+        # second round: the sub-plan changed, so did the source of gen
+        top = chain[0]
+        await self.step_op("mark_pending", top, fn=lambda: wf.mark_step_pending(wf.find(Step, top)))
+        await self.step_op("delete_hash", top, fn=lambda: wf.find(Step, top).delete_hash())
+        if r.random() < 0.7:
+            await self.hashes(HashUpdateCause.EXTERNAL, [src], 1.0)
+        if await self.pop_until(top, limit=3):
+            await self.step_op("reset_rerun", top, fn=lambda: wf.find(Step, top).reset_for_rerun())
+        for _ in range(r.randint(1, 3)):
+            await self.pop()
+
+    async def deferred_wakeup(self):
+        """A consumer amends an input that is OUTDATED (its producer has to run again) and is
+        deferred; the producer then rewrites the same content (no hash update: `mark_completed`
+        turns OUTDATED into BUILT), which has to wake the consumer up."""
+        r, wf = self.r, self.wf
+        running = await self.q(lambda: self.steps(StepState.RUNNING))
+        if "./plan.py" not in running:
+            return
+        src, data, res = r.sample(PATHS, 3)
+        await self.tx(f"k static {kkey('step', './plan.py')} {hexlist([src])}",
+                      lambda: wf.declare_static_files(wf.find(Step, "./plan.py"), [src]),
+                      lambda v: hexlist(sorted(v)))
+        await self.hashes(HashUpdateCause.CONFIRMED, [src], 1.0)
+        await self.define_explicit("./plan.py", "produce", [src], [data], Need.DEFAULT)
+        await self.define_explicit("./plan.py", "./consume.py", [], [res], Need.DEFAULT)
+        await self.complete_ok("./plan.py")
+        if await self.pop_until("produce", limit=3):
+            await self.complete_ok("produce")
+        # the source changes: produce is pending again and its output OUTDATED
+        await self.hashes(HashUpdateCause.EXTERNAL, [src], 1.0)
+        for label in r.sample(["produce", "./consume.py"], 2):
+            states = await self.q(lambda: {l: wf.find(Step, l).get_state() for l in ("produce", "./consume.py")
+                                           if wf.find(Step, l) is not None})
+            if states.get(label) != StepState.RUNNING:
+                await self.pop_until(label, limit=3)
+        states = await self.q(lambda: {l: wf.find(Step, l).get_state() for l in ("produce", "./consume.py")
+                                       if wf.find(Step, l) is not None})
+        if states.get("./consume.py") != StepState.RUNNING or states.get("produce") != StepState.RUNNING:
+            return
+        amended = [data]
+
+        def fn():
+            return wf.amend_step(wf.find(Step, "./consume.py"), inp_paths=amended,
+                                 ran_concurrently=lambda p, c: False)
+
+        def res_(v):
+            un, uf, chk = v
+            return f"{hexlist(sorted(str(x) for x in un))}|{hexlist(sorted(str(x) for x in uf))}|{hexlist(sorted(chk))}"
+
+        await self.tx(f"k amend {kkey('step', './consume.py')} {hexlist(amended)} . . . .", fn, res_)
+        await self.step_op("completed", "./consume.py", "~", 1,
+                           fn=lambda: wf.find(Step, "./consume.py").mark_completed(None, True),
+                           result=lambda v: kdump.b01(v))
+        tok = self.newtok()
+        await self.step_op("completed", "produce", tok, 0,
+                           fn=lambda: wf.find(Step, "produce").mark_completed(kdump.step_token(tok), False),
+                           result=lambda v: kdump.b01(v))
+        for _ in range(2):
+            await self.pop()
+
     async def replan(self):
         """A plan step has to run again (its script or an input changed): pending, dispatch, reset."""
         wf = self.wf
@@ -494,8 +639,9 @@ class KernelRun:
         outs = await self.q(lambda: [str(rec.path) for rec in wf.find(Step, step).out_paths()])
         k = r.random()
         if k < 0.75:  # success
-            todo = await self.q(lambda: [p for p in outs if wf.find(File, p).get_state()
-                                         in (FileState.PLANNED, FileState.OUTDATED)])
+            unchanged = r.random() < 0.3  # OUTDATED outputs rewritten with the same content: no hash update
+            todo = await self.q(lambda: [p for p in outs if wf.find(File, p).get_state() == FileState.PLANNED or
+                                         (wf.find(File, p).get_state() == FileState.OUTDATED and not unchanged)])
             await self.hashes(HashUpdateCause.SUCCEEDED, todo, 1.0)
             tok = self.newtok()
             await self.step_op("completed", step, tok, 0,
@@ -605,6 +751,12 @@ class KernelRun:
         await self.reset(cm)
         await self.define(boot=True)
         await self.pop()
+        if not self.exotic:
+            k = r.random()
+            if k < 0.2:
+                await self.nested_chain()
+            elif k < 0.3:
+                await self.deferred_wakeup()
         menu = [(self.define, 20), (self.static, 8), (self.declstatic, 5), (self.tree, 4), (self.nglob, 4),
                 (self.amend, 8), (self.recycle_under_glob, 3),
                 (self.confirm, 12), (self.external, 6), (self.pop, 18), (self.run_step, 18),
